@@ -198,6 +198,11 @@ func (p *parser) parseReturnStatement(t string) *ast.ReturnStatement {
 		// the same as "{ return %><% }"
 		return stmt
 	}
+	if p.curTokenIs(token.RETURN) && p.peekTokenIs(token.SEMICOLON) {
+		// likewise "return;"
+		p.nextToken()
+		return stmt
+	}
 
 	p.nextToken()
 	stmt.ReturnValue = p.parseExpression(LOWEST)
